@@ -653,6 +653,13 @@ theorem C14_dyn_db_replace_deleted_folder (d : DNode) (F f sF : String) (src old
       (d.createFolder F).n.addFile F { name := f, actual := src.actual, visible := old.visible, deleted := false } := by
   simp only [DNode.apply, DNode.dbReplace, hsrc, hno, hG, hold]
 
+/-- **C14 dyn (external folder write).** The stand-in for `DatabaseService._process_sql`'s `database_folder.health_status =
+CORRUPT` writes the ACTUAL health of the folders of that name and nothing else: no software item, no file, no visible value. -/
+theorem C14_dyn_folder_set (d : DNode) (F : String) (h : FsH) :
+    (d.apply (.folderSet F h)).n.sws = d.n.sws ∧
+    (d.apply (.folderSet F h)).n.folders = d.n.folders.map (fun G => if G.name = F then { G with actual := h } else G) :=
+  ⟨rfl, rfl⟩
+
 /-! ## 3b. what the agent sees BY NAME for a file that a database restore replaces -/
 
 theorem find?_map_pres {α : Type} (l : List α) (g : α → α) (p : α → Bool) (h : ∀ a, p (g a) = p a) :
